@@ -34,7 +34,7 @@ FLAVOURS = {
     "asan": ("g++", ["-fsanitize=address", "-fno-omit-frame-pointer"], ["-fsanitize=address"]),
     # clang: only it has -fsanitize-ignorelist (harness monitors must stay uninstrumented).  Its runtime is static and
     # keeps per-thread state in the executable's TLS block, so the scheduler does not pool/reset OS threads in this flavour
-    "tsan": ("clang++", ["-fsanitize=thread", "-fno-omit-frame-pointer",
+    "tsan": ("clang++", ["-fsanitize=thread", "-fno-omit-frame-pointer", "-fsized-deallocation",
                          "-fsanitize-ignorelist=" + os.path.join(VERIF, "engine/tsan_ignore.txt")],
              ["-fsanitize=thread"]),
     "plain": ("g++", [], []),
